@@ -228,3 +228,28 @@ def func_contains(func: ast.AST, node: ast.AST) -> bool:
 
 def strip_loc(text_nodes: Iterable[ast.AST]) -> List[str]:
     return [txt(n) for n in text_nodes]
+
+
+def clone(node):
+    """ structural copy of an AST (sub)tree: fields and source positions only - unlike copy.deepcopy it does not
+        follow the `_parent` back-links (which would copy the whole module) """
+    if isinstance(node, list):
+        return [clone(x) for x in node]
+    if not isinstance(node, ast.AST):
+        return node
+    new = node.__class__()
+    for name, value in ast.iter_fields(node):
+        setattr(new, name, clone(value))
+    for attr in ("lineno", "col_offset", "end_lineno", "end_col_offset"):
+        if hasattr(node, attr):
+            setattr(new, attr, getattr(node, attr))
+    return new
+
+
+def link_parents(root: ast.AST, parent=None) -> ast.AST:
+    """ (re)create the `_parent` links below root """
+    root._parent = parent  # type: ignore[attr-defined]
+    for node in ast.walk(root):
+        for child in ast.iter_child_nodes(node):
+            child._parent = node  # type: ignore[attr-defined]
+    return root
